@@ -4,7 +4,9 @@ package main
 import (
 	"fmt"
 	"os"
+	"runtime/metrics"
 	"runtime/pprof"
+	"time"
 	"strconv"
 	"strings"
 
@@ -12,7 +14,23 @@ import (
 	_ "verif/mc/props"
 )
 
+// memoryWatchdog ends the process when it grows beyond a sane size (a changed tree may make an
+// exploration allocate without bound, and the sandbox has no memory limit of its own).
+func memoryWatchdog() {
+	limit := uint64(28 << 30)
+	sample := []metrics.Sample{{Name: "/memory/classes/total:bytes"}}
+	for {
+		time.Sleep(250 * time.Millisecond)
+		metrics.Read(sample)
+		if sample[0].Value.Kind() == metrics.KindUint64 && sample[0].Value.Uint64() > limit {
+			fmt.Printf("INTERNAL-ERROR: the check process grew beyond %d GiB of memory and was stopped\n", limit>>30)
+			os.Exit(2)
+		}
+	}
+}
+
 func main() {
+	go memoryWatchdog()
 	if len(os.Args) < 2 {
 		fmt.Println("usage: mc <ID>|list [--tier quick|thorough] [--replay file]")
 		os.Exit(2)
